@@ -8,6 +8,7 @@ potential classes for several concretisations (dr, parameter set, how the user o
 `Wire` goes through the real System.createPRISM.  After every Calculate the returned array is
 compared point by point with the branch term TLC selected (evaluated by harness/termeval.py on
 the very floats the object holds), plus purity / repeatability / elementwise."""
+from harness.refmath import same_values
 import copy
 import math
 import warnings
@@ -196,7 +197,7 @@ class PotAdapter(Adapter):
             bad.append(('ClosureSigmaIsMeanDiameter', {'expected': mean, 'observed': cs}))
         with np.errstate(all='ignore'):
             u = np.asarray(p.calculate(np.array(self.r)), dtype=float)
-        if not np.array_equal(u, obs['_closure_potential'], equal_nan=True):
+        if not same_values(u, obs['_closure_potential']):
             bad.append(('WiredPotentialIsCalculate', {'kind': w['kind']}))
         obs['_bad_wire'] = bad
         return obs
@@ -217,8 +218,8 @@ class PotAdapter(Adapter):
             v3 = np.array(p.calculate(np.array(r[perm])), dtype=float)
             v4 = np.array([np.asarray(p.calculate(np.array([x])), dtype=float)[0] for x in r])
         obs = {'raises': 'none', '_v': v1, '_repeat': bool(np.array_equal(v1, v2, equal_nan=True)),
-               '_r_untouched': r.tobytes() == r0, '_perm': bool(np.array_equal(v1[perm], v3, equal_nan=True)),
-               '_single': bool(np.array_equal(v1, v4, equal_nan=True)), '_kind': w['kind']}
+               '_r_untouched': r.tobytes() == r0, '_perm': same_values(v1[perm], v3),
+               '_single': same_values(v1, v4), '_kind': w['kind']}
         if l.get('raises') == 'none':
             # value comparison needs the object's own floats (sigma, rcut), so it is done here and carried in obs
             rc = getattr(p, 'rcut', None) if w['kind'] == 'LennardJones' else None
